@@ -133,6 +133,7 @@ def nonce_nat(s):
 
 
 class Translator:
+    cancel_enc_fail = False   # set once Model/Transport has Act.cCancelEncFail
     sizes = True    # was gated until Model/Replay understands the `sizes` item and `?rec`
 
     def __init__(self, lines):
@@ -336,7 +337,13 @@ class Translator:
                 E.next_send += 1
                 return
             if b == "framedMsgpackEncoder.EncodeAndWriteAsync#0.send":
-                raise Unsupported("a cancellation that cannot be encoded")
+                if not self.cancel_enc_fail:
+                    raise Unsupported("a cancellation that cannot be encoded")
+                # the cancellation of a call refused for its method name does not fit a frame either
+                E.act("cCancelEncFail %d" % c)
+                r.y = E.next_send
+                E.next_send += 1
+                return
             if b == "dispatch.handleCancel#0.call:RecordAndFinish":
                 E.act("cCancelRec %d" % c)
                 return
